@@ -50,6 +50,8 @@ impl Metadata {
             .duration_since(std::time::UNIX_EPOCH)
             .unwrap_or_else(|_| std::time::Duration::from_secs(0))
             .as_secs();
+        #[cfg(feature = "verif")]
+        let now = crate::verif::now().map_or(now, |nanos| nanos / 1_000_000_000);
 
         let mut metadata = Self {
             signature: *FEOX_SIGNATURE,
@@ -110,6 +112,10 @@ impl Metadata {
             .duration_since(std::time::UNIX_EPOCH)
             .unwrap_or_else(|_| std::time::Duration::from_secs(0))
             .as_secs();
+        #[cfg(feature = "verif")]
+        if let Some(nanos) = crate::verif::now() {
+            self.last_update_time = nanos / 1_000_000_000;
+        }
         self.refresh_checksum();
     }
 
